@@ -70,6 +70,10 @@ impl Walrus {
                     if (pos.cur_block_idx & TAIL_FLAG) != 0 {
                         let tail_block_id = pos.cur_block_idx & (!TAIL_FLAG);
                         persisted_tail = Some((tail_block_id, pos.cur_block_offset));
+                        // remember the position in memory too (as the batch read path does),
+                        // so that it is carried over if that block is sealed later
+                        info.tail_block_id = tail_block_id;
+                        info.tail_offset = pos.cur_block_offset;
                         // sealed state is considered caught up
                         info.cur_block_idx = info.chain.len();
                         info.cur_block_offset = 0;
@@ -211,7 +215,7 @@ impl Walrus {
             let mut info = info_arc.write().map_err(|_| {
                 io::Error::new(io::ErrorKind::Other, "col info write lock poisoned")
             })?;
-            if let Some((tail_block_id, tail_off)) = persisted_tail {
+            if let Some((tail_block_id, _)) = persisted_tail {
                 if tail_block_id != active_block.id {
                     if let Some(idx) = info
                         .chain
@@ -220,31 +224,13 @@ impl Walrus {
                         .find(|(_, b)| b.id == tail_block_id)
                         .map(|(idx, _)| idx)
                     {
-                        // `persisted_tail` was taken before the column lock was released and
-                        // may be stale: other consumers may have read on meanwhile (and
-                        // `append_block_to_chain` carries their in-memory position over when
-                        // the block is sealed). Never fold the cursor backwards.
-                        let folded_off = tail_off.min(info.chain[idx].used);
-                        let behind = if info.cur_block_idx < info.chain.len() {
-                            (idx, folded_off) < (info.cur_block_idx, info.cur_block_offset)
-                        } else {
-                            info.tail_block_id == active_block.id
-                        };
-                        if !behind {
-                            info.cur_block_idx = idx;
-                            info.cur_block_offset = folded_off;
-                            if checkpoint {
-                                if self.should_persist(&mut info, true) {
-                                    if let Ok(mut idx_guard) = self.read_offset_index.write() {
-                                        let _ = idx_guard.set(
-                                            col_name.to_string(),
-                                            info.cur_block_idx as u64,
-                                            info.cur_block_offset,
-                                        );
-                                    }
-                                }
-                            }
-                        }
+                        // The block has been sealed since `persisted_tail` was taken. Nothing to
+                        // fold: the in-memory cursor is authoritative. It already points at or
+                        // past this block (`append_block_to_chain` carries an in-progress tail
+                        // position over when the block is sealed), and `persisted_tail` may be
+                        // stale because the column lock was released in between; folding it in
+                        // would move the cursor backwards and deliver entries twice.
+                        let _ = idx;
                         persisted_tail = None; // sealed now
                         drop(info);
                         continue;
@@ -816,7 +802,14 @@ impl Walrus {
 
         // Plan tail if we're at the end of sealed chain
         if cur_idx >= chain_len_at_plan {
-            if let Some((active_block, written)) = writer_snapshot.clone() {
+            // The writer snapshot was taken before the column lock: if the writer has
+            // rotated since, that block is already in the sealed chain (and was planned
+            // above); reading it again as the tail would return its entries twice.
+            let snapshot_is_sealed = writer_snapshot
+                .as_ref()
+                .map(|(b, _)| chain.iter().any(|c| c.id == b.id))
+                .unwrap_or(false);
+            if let Some((active_block, written)) = writer_snapshot.clone().filter(|_| !snapshot_is_sealed) {
                 // Determine start of tail read
                 let mut tail_start = if start_offset.is_some() {
                     tail_offset // 'rem'
